@@ -198,7 +198,7 @@ def run(ctx):
                                        "expected": single})
                 break
     # every option reaches the per-pair routine through every matrix entry point (unequal lengths, all options)
-    for k in range(120 if ctx.thorough else 30):
+    for k in range(200 if ctx.thorough else 70):
         nser = rng.randint(2, 5)
         nd = rng.choice([1, 2, 3])
         series = [[rng.randint(-3, 3) for _ in range(rng.randint(1, 7) * nd)] for _ in range(nser)]
@@ -207,7 +207,7 @@ def run(ctx):
         if rng.random() < 0.5:
             kw["window"] = rng.choice([1, 2, 3])
         if rng.random() < 0.4:
-            kw["penalty"] = rng.choice([0.5, 1.0, 2.0])
+            kw["penalty"] = rng.choice([0.5, 1.0, 2.0, 4.0])
         if rng.random() < 0.5:
             kw["max_length_diff"] = rng.choice([1, 2, 3])
         if rng.random() < 0.3:
